@@ -51,6 +51,14 @@ CHECKS["C17"] = {
     "design_ref": "DESIGN.md 2.4, 3 (C17)",
 }
 
+CHECKS["C01"] = {
+    "engine": "W",
+    "technique": "deterministic simulation of the two-party world (stub RAMSES ranks write, real loader reads) with seeded, fault-free search over world states; ground-truth octree as reference model",
+    "text": "Exploration, fault-free world search: a seeded octree with a domain decomposition is dumped by stub ranks (own implementation of the RAMSES record format, ghost octs tagged, boundary octs negative, unique value per (cell, variable)) and loaded by the real osyris.io through the file-system seam (shuffled directory listing, open trace). The loaded mesh must equal the leaf set exactly (missing / duplicated / extra / ghost-sourced rows are separate classes) with geometry, level, owner, every variable times an independent unit-factor table, unit labels, vector assembly, derived mass and B_field, ncells, time, nout=-1 resolution. No schedule or fault is involved in this property; sampling, not proof.",
+    "note": "Trusted: the author's knowledge of the RAMSES output format (writer shares no code with the readers; its acceptance by the unchanged loader is empirical support, not proof); independent unit-factor table; pint only for converting the returned label to a canonical CGS unit.",
+    "design_ref": "DESIGN.md 2.3, 3 (C01)",
+}
+
 PENDING_REASON = "check not built yet in this snapshot of /verif (planned and applicable, see DESIGN.md section 3); not claimed until its check exists"
 ALL = ["C%02d" % i for i in range(1, 21)]
 
